@@ -557,6 +557,29 @@ def module_history(ctx, case):
                 return Retry
             return self.final_status(IDLE, 'done')
 
+        def state_plain(self, sm):     # a first state without status code: BUSY is the default while it runs
+            return self.state_a
+
+        ncl = 0
+
+        def state_cleaning(self, sm):   # a cleanup sequence spanning several cycles
+            if sm.init:
+                self.ncl = 0
+            self.ncl += 1
+            if self.ncl <= case.get('cleanup_cycles', 0):
+                return Retry
+            return None
+
+        def on_stop(self, sm):
+            return self.state_cleaning if case.get('cleanup_cycles') else None
+
+        def on_restart(self, sm):
+            return self.state_cleaning if case.get('cleanup_cycles') else None
+
+        def on_error(self, sm):
+            super().on_error(sm)
+            return self.state_cleaning if case.get('cleanup_cycles') else None
+
         def read_status(self):
             st_ = super().read_status()
             statuses.append(tuple(st_))
@@ -578,11 +601,13 @@ def module_history(ctx, case):
     key = repr(case)
     expect_busy = False
     stopped = False
+    was_active = False
     for i, o in enumerate(case['ops']):
         sub = dict(case, ops=case['ops'][:i + 1])
+        mark = len(statuses)
         try:
             if o == 'start':
-                m.start_machine(m.state_a)
+                m.start_machine(m.state_plain if case.get('first') == 'plain' else m.state_a)
                 expect_busy, stopped = True, False
             elif o == 'stop':
                 if m._state_machine.is_active:
@@ -600,6 +625,12 @@ def module_history(ctx, case):
             if not 300 <= code < 400:
                 ctx.finding('module:not-busy-while-running', sub, f'status {m.read_status()!r} while machine active/start pending')
                 return
+            # every status the module announced during this step, too: a run (or a pending start) existed before and after it
+            if was_active or o == 'start':
+                idle = [st_ for st_ in statuses[mark:] if not 300 <= int(st_[0]) < 400]
+                if idle:
+                    ctx.finding('module:non-busy-status-announced-while-running', sub, f'statuses during this step: {statuses[mark:]!r}')
+                    return
             ctx.ok('busy-while-running')
         else:
             if 300 <= code < 400:
@@ -609,6 +640,7 @@ def module_history(ctx, case):
                 ctx.finding('module:stopped-status-missing', sub, f'status {m.read_status()!r}')
                 return
             ctx.ok('final-status')
+        was_active = active
     if 'stop' in case['ops'] and 'start' in case['ops']:
         ctx.nt(key)
     ctx.sample({'module-history': case, 'statuses': statuses[:10]}, every=97)
@@ -617,6 +649,7 @@ def module_history(ctx, case):
 @st.composite
 def module_case(draw):
     return {'kind': 'module', 'retries': draw(st.integers(0, 3)), 'chain': draw(st.booleans()), 'b': draw(st.sampled_from(['finish', 'retry', 'raise'])),
+            'cleanup_cycles': draw(st.sampled_from([0, 0, 1, 3])), 'first': draw(st.sampled_from(['coded', 'plain'])),
             'ops': draw(st.lists(st.sampled_from(['start', 'stop', 'cycle', 'cycle', 'cycle']), min_size=1, max_size=14))}
 
 
